@@ -26,7 +26,8 @@ type ReplayFile struct {
 	Index     int                    `json:"index"`
 	RunSeed   uint64                 `json:"run_seed"`
 	Tier      string                 `json:"tier"`
-	Mode      string                 `json:"mode"` // "tapes" or "generate"
+	Mode      string                 `json:"mode"`       // "tapes" or "generate"
+	RangeFrom int                    `json:"range_from"` // first run index of the worker that found the violation
 	Work      []int                  `json:"work"`
 	Sched     []int                  `json:"sched"`
 	Race      bool                   `json:"race_build"`
@@ -300,7 +301,7 @@ func TestWorker(t *testing.T) {
 				}
 				seenKeys[id] = true
 				rf := &ReplayFile{Property: prop, Engine: engName, Class: class, Key: key, Message: msg, BaseSeed: base, Index: i,
-					RunSeed: seed, Tier: tier, Mode: "tapes", Work: append([]int(nil), rc.W.Rec...), Sched: append([]int(nil), rc.S.Rec...),
+					RunSeed: seed, Tier: tier, Mode: "tapes", RangeFrom: from, Work: append([]int(nil), rc.W.Rec...), Sched: append([]int(nil), rc.S.Rec...),
 					Race: simrt.RaceBuild, Sample: o.Sample, Detail: o.Detail}
 				if minimise {
 					minimiseReplay(eng, rf, t)
